@@ -3,8 +3,9 @@ import json, os, copy
 import vf
 
 PROP = "C04"
-THEOREMS = ["apply_err_is_err", "apply_ok_means_all_applied", "diff_apply_exact_refuted", "diff_apply_exact_partial",
-            "diff_canonical", "patch_constructor_identity", "Struct_preserved"]
+THEOREMS = ["diff_apply_exact", "diff_apply_complete", "diff_apply_tick", "diff_apply_tick_dangling_refuted",
+            "diff_canonical", "patch_constructor_identity", "Struct_preserved", "apply_err_is_err",
+            "apply_ok_means_all_applied"]
 PRE = ("From Coq Require Import List NArith Bool.\n"
        "From Echo Require Import Base.FinMap Base.Order Model.Patch.\n"
        "Import ListNotations.\nOpen Scope N_scope.\n"
@@ -625,6 +626,40 @@ def mk_pair(a, b, seed):
 def mk_seq(a, ops, canon, seed):
     return f"k=seq a={r_state(a)} ops={r_ops(ops)} canon={canon} seed={seed}"
 
+LOCAL_MUTS = ["add_node", "retype_node", "del_node_cascade", "del_node_retarget", "add_edge", "del_edge", "retype_edge",
+              "retarget_edge", "reparent_edge_keep", "reparent_edge_clear", "reparent_edge_change", "set_natt",
+              "clear_natt", "set_eatt", "clear_eatt", "swap_edge_ids"]
+
+def mutate_in(rng, st, w, kind):
+    """like mutate, but inside instance w only (what a user rule may do in a real engine tick)"""
+    class OneWarp:
+        def __init__(s, r): s.r = r
+        def choice(s, xs):
+            xs = list(xs)
+            return w if (xs and all(x in st for x in xs) and w in xs and len(xs) == len(st)) else s.r.choice(xs)
+        def __getattr__(s, n): return getattr(s.r, n)
+    return mutate(OneWarp(rng), st, kind)
+
+def gen_tick(rng, stats):
+    """one or two real engine ticks: the scripted rule emits a correct program for a semantic edit inside one instance"""
+    a = gen_state(rng)
+    w = rng.choice(sorted(a))
+    ticks, cur = [], a
+    for _ in range(rng.choice([1, 1, 2])):
+        nxt = copy.deepcopy(cur)
+        for _ in range(rng.choice([1, 2, 3])):
+            k = rng.choice(LOCAL_MUTS)
+            if mutate_in(rng, nxt, w, k):
+                stats["tick:" + k] = stats.get("tick:" + k, 0) + 1
+        if set(nxt) != set(cur):
+            return None
+        ops = good_ops(cur, nxt)
+        if any(o[0] in "IXP" for o in ops) or any((o[1] if o[0] != "A" else o[1][1]) != w for o in ops) or not ops:
+            return None
+        ticks.append(ops)
+        cur = nxt
+    return f"k=tick a={r_state(a)} w={hid(w)} ops={'/'.join(r_ops(t) for t in ticks)} seed={rng.getrandbits(32)}"
+
 def gen_cases(rng, tier, stats):
     n = 1200 if tier == "quick" else 12000
     cases = []
@@ -649,6 +684,15 @@ def gen_cases(rng, tier, stats):
             ops = gen_ops(rng, a, stats)
             cases.append(mk_seq(a, ops, 1 if i % 2 else 0, rng.getrandbits(32)))
             stats["seq:random"] = stats.get("seq:random", 0) + 1
+    nt = 0
+    for i in range(n * 2):
+        if nt >= (300 if tier == "quick" else 3000):
+            break
+        c = gen_tick(rng, stats)
+        if c:
+            cases.append(c)
+            nt += 1
+    cases.append(f"k=enum sample={'400000' if tier == 'quick' else 'all'} seed={rng.getrandbits(32)} ety=8")
     return cases
 
 # ----------------------------------------------------------------------------- run
@@ -657,18 +701,23 @@ def split_impl(l):
     body, _, orc = l.rpartition(" oracle=")
     return body, orc
 
-def both(tag, cases, bins, model=True):
+def has_model(c):
+    return c.startswith(("k=pair", "k=seq"))
+
+def both(tag, cases, bins, model=True, timeout=2400):
     path = vf.write_cases(tag, cases)
-    rc, out = vf.run_bin(bins["c04"], path)
-    lines = [l for l in out.splitlines() if l.startswith(("diff=", "res="))]
+    rc, out = vf.run_bin(bins["c04"], path, timeout=timeout)
+    lines = [l for l in out.splitlines() if l.startswith(("diff=", "res=", "tick ", "enum "))]
     if rc or len(lines) != len(cases):
         raise vf.Broken(f"harness c04 exited {rc} with {len(lines)} lines for {len(cases)} cases: {out[-1200:]}")
     impl, oracle = zip(*[split_impl(l) for l in lines]) if lines else ((), ())
-    mod = []
+    mod = list(impl)
     if model:
-        terms = [to_term(c) for c in cases]
+        idx = [i for i, c in enumerate(cases) if has_model(c)]
+        terms = [to_term(cases[i]) for i in idx]
         vals = vf.coq_eval(tag, PRE + big_defs(), terms)
-        mod = [render_model(c, v) for c, v in zip(cases, vals)]
+        for i, v in zip(idx, vals):
+            mod[i] = render_model(cases[i], v)
     return list(impl), mod, list(oracle)
 
 def sig_of(orc):
@@ -735,6 +784,22 @@ def run(tier, seed, replay=None):
         return r.finish()
     bad = vf.diff_lines(r, cases, impl, model)
     seen = set()
+    enum_info = {}
+    for i, c in enumerate(cases):
+        if c.startswith("k=enum"):
+            m = dict(t.split("=", 1) for t in impl[i].split()[1:])
+            enum_info = {k: m[k] for k in ("states", "wf", "pairs", "ok", "err", "buildbad", "fails")}
+            if m.get("ex", "-") != "-":
+                for ex in m["ex"].split(";"):
+                    sig, ab = ex.split("|", 1)
+                    a_, b_ = ab.split("#")
+                    pc = f"k=pair a={a_} b={b_} seed=1"
+                    if sig not in seen:
+                        seen.add(sig)
+                        r.violation(sig, f"exhaustive universe: oracle {sig} fails on {pc}", {"case": pc, "oracle": sig})
+            if m.get("buildbad", "0") != "0":
+                r.is_broken("enum-build", "harness could not build some enumerated states faithfully")
+            oracle[i] = "ok"
     for i, o in enumerate(oracle):
         if o != "ok":
             sig = sig_of(o)
@@ -768,7 +833,14 @@ def run(tier, seed, replay=None):
     r.cov["generator_edits"] = dict(sorted(stats.items()))
     r.cov["traces_validated_against_impl"] = len(cases) - len(bad)
     r.cov["oracle_failures_by_signature"] = {s: sum(1 for o in oracle if o != "ok" and sig_of(o) == s) for s in seen}
-    r.cov["samples"] = cases[:2] + cases[-2:]
+    r.cov["exhaustive_universe"] = enum_info
+    tk = {}
+    for c, l in zip(cases, impl):
+        if c.startswith("k=tick"):
+            for t in l.split()[1].split("=", 1)[1].split(","):
+                tk[t.split(":")[0]] = tk.get(t.split(":")[0], 0) + 1
+    r.cov["engine_ticks"] = tk
+    r.cov["samples"] = cases[:2] + [c for c in cases if c.startswith("k=tick")][:1] + cases[-2:-1]
     r.phase("P4_correspondence", cases=len(cases), differing=len(bad))
     r.phase("P5_oracle", failing=sum(1 for o in oracle if o != "ok"))
     return r.finish()
